@@ -344,7 +344,7 @@ impl Vw {
         // --- the current and future ledgers are refused (every account at `now`; one rotating
         //     account further out — the refusal cannot depend on more than the ledger)
         let mut fut = 0u64;
-        for (l, accts) in [(now - 1, vec![A, B, C]), (now + 1, vec![(now as usize) % N]), (u32::MAX, vec![(now as usize + 1) % N])] {
+        for (l, accts) in [(now, vec![A, B, C]), (now + 1, vec![(now as usize) % N]), (u32::MAX, vec![(now as usize + 1) % N])] {
             for a in accts {
                 let r = view(e, &i.c, "get_votes_at_checkpoint", (i.u[a].clone(), l).into_val(e));
                 ensure!(r.is_err(), "future-refused", "at ledger {}: get_votes_at_checkpoint({}, {}) answered {:?}", now, NAMES[a], l, r);
@@ -602,7 +602,7 @@ impl World for Vw {
             if from == to && *a > 0 {
                 cx.stats.count("self-transfers", 1);
             }
-            if *a > 0 && (*a as u128) == m.units[*to] && m.units[*from] == 0 && from != to {
+            if *a > 0 && m.units[*from] == 0 && from != to {
                 cx.stats.count("full-balance-transfers", 1);
             }
         }
